@@ -456,6 +456,9 @@ def check_C02(tier, seed):
                             add(g.user_callee_case(nreq, nopt, rest, argc, kind, route), 'u'); nex += 1
                             if argc >= 2:
                                 add(g.user_callee_case(nreq, nopt, rest, argc, kind, route, atoms=True), 'ua'); nex += 1
+                        if argc == 1 and kind != 'macro':
+                            for route in ('mapcar', 'seq-map', 'seq-filter', 'seq-find'):
+                                add(g.user_callee_case(nreq, nopt, rest, 1, kind, route), 'us'); nex += 1
     for _ in range(tier_n(tier, 1200, 30000)): add(g.builtin_case(), 'b')
     for _ in range(tier_n(tier, 1200, 30000)): add(g.higher_order_case(), 'h')
     for _ in range(tier_n(tier, 300, 6000)): add(g.tailrec_case(), 't')
@@ -791,7 +794,7 @@ def check_C13(tier, seed):
     gate = proof_gate('C13')
     core.build_model(); core.build_impl()
     rng = random.Random(seed)
-    vals = [0, 1, -1, 2, -2, 7, -7, I64MAX, I64MAX - 1, I64MIN, I64MIN + 1, 2**53 + 1, -(2**53) - 1, 2**32, 3037000500,
+    vals = [0, 1, -1, 2, -2, 7, -7, I64MAX, I64MAX - 1, I64MIN, I64MIN + 1, 2**53 + 1, -(2**53) - 1, 2**32, 3037000500, 3000000000, -4000000000, 4000000000, -3000000001,
             0.0, -0.0, 1.5, -1.5, 2.5, -2.5, 1e300, 0.1, 3.0, 9007199254740992.0]
     nary = ['+', '-', '*', '/', 'max', 'min', '<', '<=', '>', '>=']
     items = []
@@ -891,6 +894,9 @@ def check_C12(tier, seed):
     def add(text, fn): items.append((text, {'ref': fn}))
     cxrs = ['car', 'cdr'] + ['c' + ''.join(p) + 'r' for k in (2, 3, 4) for p in itertools.product('ad', repeat=k)]
     nested = [[[1, 2], [3, [4]], 5], [[['a']], 'b'], Dot([[1]], [2]), [[[[1]]]], None, [Dot([1], 2), Dot([Dot([3], 4)], 5)]]
+    def tree(d, path=''):
+        return path or 'root' if d == 0 else Dot([tree(d - 1, path + 'a')], tree(d - 1, path + 'd'))
+    nested += [tree(5), tree(4), [1, [2, 3, 4], [5, 6], 7], [[[1, 2], 3], [[4, 5, 6, 7], 8, 9, 10], 11, 12, 13]]
     for l in nested + lists[:60]:
         for name in cxrs:
             add('(%s %s)' % (name, lit(l)), (lambda l=l, name=name: L.cxr(name[1:-1], l)))
@@ -1019,6 +1025,9 @@ def check_C17(tier, seed):
         ('counter', "(lambda (p q) (setq cnt (1+ cnt)) (< (mod (* cnt 7) 5) 2))", 'any', None),
         ('tick<', "(lambda (p q) (tick 1 (< (car p) (car q))))", 'swo', lambda p, q: p[0] < q[0]),
         ('mod3', "(lambda (p q) (< (mod (car p) 3) (mod (car q) 3)))", 'swo', lambda p, q: p[0] % 3 < q[0] % 3),
+        # the predicate sorts too (sort is re-entered while a merge is under way)
+        ('nested-sort', "(lambda (p q) (< (car (sort (list 100 (car p) 50) '<)) (car (sort (list (car q) 70 200) '<))))", 'swo', lambda p, q: p[0] < q[0]),
+        ('nested-sort-big', "(lambda (p q) (< (nth 5 (sort (list 9 8 (car p) 7 6 (+ 20 (car p)) 5 4 (+ 10 (car p)) 3) '>)) (nth 5 (sort (list 3 (+ 10 (car q)) 4 5 (+ 20 (car q)) 6 7 (car q) 8 9) '>))))", 'swo', lambda p, q: (7 if p[0] >= 7 else 6) < (7 if q[0] >= 7 else 6)),
     ]
     items = []
     for n in lens:
@@ -1331,6 +1340,15 @@ def check_C14(tier, seed):
     items = []
     def add(text, exp, tag): items.append((text, {'exp': exp, 'tag': tag}))
     vals = list(atoms) + [gen_val(3) for _ in range(tier_n(tier, 60, 600))]
+    # inside a closure that captures x, the quoted symbol x is replaced by the closure's cell: eq / equal / hash keys still
+    # identify it with the interned symbol, in both argument orders, at any depth
+    for wrap in ["(let ((x 1)) (funcall (lambda () x %s)))", "(funcall (let ((x 1) (y 2)) (lambda (p) (list x y) %s)) 0)", "(let ((x 1)) (funcall (funcall (lambda () (lambda () x %s)))))"]:
+        for body, exp in [("(list (eq 'x (intern \"x\")) (eq (intern \"x\") 'x) (equal 'x (intern \"x\")) (equal (intern \"x\") 'x) (eq 'x 'x) (eq 'x 'y))", '(t t t t t nil)'),
+                          ("(list (equal '(a (x . 2)) (list 'a (cons (intern \"x\") 2))) (equal (list 'a (cons (intern \"x\") 2)) '(a (x . 2))) (equal '(x) '(y)))", '(t t nil)'),
+                          ("(let ((h (make-hash-table))) (puthash 'x 1 h) (puthash (intern \"x\") 2 h) (list (gethash 'x h) (gethash (intern \"x\") h) (hash-table-count h)))" if False else
+                           "(let ((h (make-hash-table))) (puthash 'x 1 h) (puthash (intern \"x\") 2 h) (list (gethash 'x h) (gethash (intern \"x\") h)))", '(2 2)'),
+                          ("(list (assoc 'x (list (cons (intern \"x\") 1))) (assoc (intern \"x\") '((x . 1))) (alist-get 'x (list (cons (intern \"x\") 5))))", '((x . 1) (x . 1) 5)')]:
+            add(wrap % body, exp, 'closure-symbol')
     pairs = list(itertools.product(atoms, atoms))
     for _ in range(tier_n(tier, 1500, 40000)):
         a = rng.choice(vals); b = mutate(a) if rng.random() < 0.6 else rng.choice(vals)
@@ -3429,6 +3447,9 @@ def check_C20(tier, seed):
         ('ctxfuncall:4:%d:8' % r4, 'e'))
     seq(*[(o, None) for o in o5], ('ctxeval:%d:1' % r5, 'u'), ('show:1', 'v' + hx('(a b)')), ('evalthen:%d' % r5, 'v' + hx('(a b)')), ('sym:%s:2' % hx('xv'), 'u'), ('evalthen:2', 'e'), ('int:5:3', 'u'), ('set:2:3', 'u'),
         ('evalthen:2', 'v' + hx('5')), ('ctxeval:2:4', 'u'), ('eq:4:3', 'b1'), ('evalthen:3', 'v' + hx('5')), ('sym:%s:5' % hx('no-such-fn'), 'u'), ('ctxfuncall:5:%d:6' % r5, 'e'))
+    o6, r6 = mk(L(1, St('two'), 3.5), 120)
+    seq(*[(o, None) for o in o6], ('evaleach:%d:1' % r6, 'u'), ('eq:1:%d' % r6, 'b0'), ('int:99:2', 'u'), ('push:1:2', 'u'), ('show:%d' % r6, 'v' + hx('(1 "two" 3.5)')), ('show:1', 'v' + hx('(1 "two" 3.5 99)')),
+        ('nil:3', 'u'), ('evaleach:3:4', 'u'), ('push:4:2', 'u'), ('show:3', 'v' + hx('nil')), ('show:4', 'v' + hx('(99)')), ('evaleach:%d:5' % r6, 'u'), ('show:5', 'v' + hx('(1 "two" 3.5)')))
     xc = Case('extras')
     for ops, _ in ex_cases: xc.lines.append('api ' + ' '.join(ops)); xc.nreq += 1
     xo = core.run_side(core.TLIMPL_DEBUG, [xc], announce=True).get('extras', [])
@@ -3456,7 +3477,12 @@ def check_C20(tier, seed):
     for k, (text, want, ticks) in enumerate([
             ("(host-rev (tick 1 1) (tick 2 2))", '(2 1)', '2:2,1:1'), ("(macroexpand '(host-rev a b c))", '(list c b a)', '-'), ("(host-rev)", 'nil', '-'),
             ("(let ((x 1)) (host-rev x 'x))", '(x 1)', '-'), ("(defun hr (a b) (host-rev a (tick 3 b))) (hr 1 2)", '(2 1)', '3:2'), ("(macroexpand '(when (host-rev 1 2) (host-rev 3)))", '(if (list 2 1) (progn (list 3)))', '-'),
-            ("(host-rev (host-rev 1 2) 3)", '(3 (2 1))', '-')]):
+            ("(host-rev (host-rev 1 2) 3)", '(3 (2 1))', '-'),
+            # a host function that modifies its rest list: the list is its own, not the argument list of the calling form
+            ('(defun hc () (host-collect 1 "two" 3.0)) (list (hc) (hc) (hc))', '((1 "two" 3.0 99) (1 "two" 3.0 99) (1 "two" 3.0 99))', '-'),
+            ("(defun hc0 () (host-collect)) (list (hc0) (hc0))", '((99) (99))', '-'),
+            ("(setq form '(host-collect 1 :k nil t)) (list (eval form) (eval form) form)", '((1 :k nil t 99) (1 :k nil t 99) (host-collect 1 :k nil t))', '-'),
+            ("(setq q 5) (defun hq () (host-collect q 'a (tick 4 2))) (list (hq) (hq))", '((5 a 2 99) (5 a 2 99))', '4:2,4:2')]):
         c = Case('hm%d' % k); c.eval(text); mc.append((c, want, ticks))
     mo_ = core.run_side(core.TLIMPL_DEBUG, [c for c, _, _ in mc], announce=True)
     for c, want, ticks in mc:
